@@ -42,6 +42,10 @@ func runSpec(s spec) vh.Case {
 	r := rand.New(rand.NewSource(s.seed))
 	parts := strings.Split(s.class, "/")
 	var c vh.Case
+	if stuckHistories >= maxStuck && (parts[0] == "W" || parts[0] == "P" || parts[0] == "M") {
+		// enough histories of the wrapper ended in a call that never returns: the rest of the wrapper classes is skipped
+		return vh.Case{}
+	}
 	switch parts[0] {
 	case "W":
 		switch parts[1] {
@@ -78,6 +82,9 @@ func runSpec(s spec) vh.Case {
 	}
 	c.Class = s.class
 	c.Replay = s.String()
+	if c.Coq == "CaseFatal" && c.Key == "" {
+		c.Key = "fatal " + s.String()
+	}
 	return c
 }
 
@@ -108,7 +115,7 @@ func child(file string) {
 
 // parent: run the specs in children; a child that dies or hangs yields a CaseFatal for the spec it was running
 func supervise(e *vh.Env, specs []spec) {
-	fatal := 0
+	fatal, hangs := 0, 0
 	for len(specs) > 0 {
 		f, err := os.CreateTemp("", "c03batch")
 		if err != nil {
@@ -127,7 +134,8 @@ func supervise(e *vh.Env, specs []spec) {
 		}
 		done := make(chan error, 1)
 		go func() { done <- cmd.Wait() }()
-		// progress watchdog: the same spec for 120 s is a hang (a history normally takes about a millisecond)
+		// progress watchdog: the same spec for 60 s is a hang (a history normally takes about a millisecond; calls that
+		// never return because they wait for the wrapper's lock are found by the harness itself within seconds, watch.go)
 		last, lastChange := "", time.Now()
 		var werr error
 		hung := false
@@ -140,7 +148,7 @@ func supervise(e *vh.Env, specs []spec) {
 				p, _ := os.ReadFile(file + ".progress")
 				if string(p) != last {
 					last, lastChange = string(p), time.Now()
-				} else if time.Since(lastChange) > 120*time.Second {
+				} else if time.Since(lastChange) > 60*time.Second {
 					hung = true
 					cmd.Process.Kill()
 					werr = <-done
@@ -157,7 +165,9 @@ func supervise(e *vh.Env, specs []spec) {
 				if json.Unmarshal(sc.Bytes(), &c) != nil {
 					break // a line cut short by the crash
 				}
-				e.Emit(c)
+				if c.Coq != "" { // "" = a spec skipped by the child
+					e.Emit(c)
+				}
 				ndone++
 			}
 			of.Close()
@@ -176,7 +186,8 @@ func supervise(e *vh.Env, specs []spec) {
 		bad := specs[ndone]
 		what := "the implementation crashed the process (unrecoverable runtime error)"
 		if hung {
-			what = "the implementation made no progress for 120 s (hang)"
+			what = "the implementation made no progress for 60 s (hang)"
+			hangs++
 		}
 		msg := stderr.String()
 		if len(msg) > 1500 {
@@ -186,7 +197,7 @@ func supervise(e *vh.Env, specs []spec) {
 			Desc: map[string]interface{}{"kind": "fatal", "what": what, "history": "generator class and seed " + bad.String() + " (re-run with -replay)", "stderr": msg}})
 		fatal++
 		specs = specs[ndone+1:]
-		if fatal >= 8 {
+		if fatal >= 8 || hangs >= 2 {
 			// enough evidence; do not spend the budget on crash after crash
 			return
 		}
@@ -245,7 +256,7 @@ func main() {
 		// mix the classes so that the case files the driver cuts are of similar size
 		e.Rnd.Shuffle(len(specs), func(i, j int) { specs[i], specs[j] = specs[j], specs[i] })
 		supervise(e, specs)
-		e.Meta["generator"] = "c03/9"
+		e.Meta["generator"] = "c03/10"
 	})
 }
 
